@@ -26,11 +26,11 @@ PROP = dict(
                  "stored fragment data: while DP10 is open, files whose container section is not consistent but are accepted are not used further (signature of DP10)"],
     tags=["gp"],
     units=[
-        U("server", "./server", "^TestVerifC06_Server$", 900, 60000, sq=3, sth=8, timeout={"quick": 600, "thorough": 3000}),
-        U("message", "./server", "^TestVerifC06_ClusterMessage$", 1500, 60000, sq=1, sth=3, timeout={"quick": 600, "thorough": 3000}),
-        U("roaring-unmarshal", "./roaring", "^TestVerifC06_UnmarshalBinary$", 8000, 400000, sq=2, sth=6),
-        U("roaring-import", "./roaring", "^TestVerifC06_ImportRoaringBits$", 6000, 300000, sq=3, sth=8),
-        U("parse", "./pql", "^TestVerifC06_ParseString$", 6000, 300000, sq=2, sth=4),
-        U("stored", ".", "^TestVerifC06_StoredFragment$", 2400, 100000, sq=2, sth=6),
+        U("server", "./server", "^TestVerifC06_Server$", 900, 24000, sq=3, sth=8, timeout={"quick": 600, "thorough": 3000}),
+        U("message", "./server", "^TestVerifC06_ClusterMessage$", 1500, 30000, sq=1, sth=3, timeout={"quick": 600, "thorough": 3000}),
+        U("roaring-unmarshal", "./roaring", "^TestVerifC06_UnmarshalBinary$", 8000, 240000, sq=2, sth=6),
+        U("roaring-import", "./roaring", "^TestVerifC06_ImportRoaringBits$", 6000, 160000, sq=3, sth=8),
+        U("parse", "./pql", "^TestVerifC06_ParseString$", 6000, 120000, sq=2, sth=4),
+        U("stored", ".", "^TestVerifC06_StoredFragment$", 2400, 60000, sq=2, sth=6),
     ],
 )
